@@ -39,7 +39,7 @@ type Env struct {
 
 // families in a fixed order; every family is built on first use (a restarted worker only
 // builds what it still has to run).
-var familyNames = []string{"bytea", "auditlog", "tokens", "keyring", "envelopes", "mysql", "postgresql", "yaml", "sql"}
+var familyNames = []string{"bytea", "auditlog", "tokens", "keyring", "envelopes", "mysql", "postgresql", "yaml", "sql", "translator"}
 
 func (e *Env) family(name string, thorough bool) []*Space {
 	if e.fam == nil {
@@ -68,6 +68,8 @@ func (e *Env) family(name string, thorough bool) []*Space {
 		s = e.yamlSpaces(thorough)
 	case "sql":
 		s = e.sqlSpaces(thorough)
+	case "translator":
+		s = e.translatorSpaces(thorough)
 	default:
 		ev.Fatalf("unknown family %q", name)
 	}
